@@ -2166,11 +2166,16 @@ package gomatrixserverlib
 
 // event-reference conversion for the template of v1/v2 rooms and ProtoEvent.SetContent: outside the property
 //@ func toEventReference
-//@   trusted
+//@   property C03
+//@   nosafety
+//@   loop 1: invariant 0 <= idx(1)
+//@   loop 2: invariant 0 <= idx(2)
 //@   assigns nothing
 //@ func (*ProtoEvent).SetContent
-//@   trusted
-//@   assigns *pe
+//@   property C03
+//@   nosafety
+//@   requires pe != nil
+//@   assigns pe.Content
 // ---- the map-backed AuthEventProvider used by federation verification and the handlers
 //@ func (*AuthEvents).AddEvent
 //@   property C14
